@@ -6,16 +6,26 @@ Import ListNotations.
 Open Scope string_scope.
 Set Implicit Arguments.
 
-Local Notation r2 := (@rd_v2 Qc).  Local Notation r3 := (@rd_v3 Qc).
+Section G.
+  Variable F : Type.
+  Variable O : Ops F.
+  Variable T : Trig F.
+  Variable A : Approx F.
+  Variable toNat : F -> nat.
 
-Definition tab_c15 (o : Orc) : list (string * (list Qc -> val)) :=
-  let T := TrigQ o in [
-  ("quat_between_vectors", run2 r3 r3 (fun a b => oq (quat_between_vectors O T ApproxQ a b)));
-  ("basis3_between_vectors", run2 r3 r3 (fun a b => om3 (basis3_between_vectors O T ApproxQ a b)));
-  ("basis2_between_vectors", run2 r2 r2 (fun a b => om2 (basis2_between_vectors O T a b)));
-  ("quat_from_arc_none", run2 r3 r3 (fun a b => oq (quat_from_arc O T ApproxQ a b None)));
-  ("quat_from_arc_some", run3 r3 r3 r3 (fun a b f => oq (quat_from_arc O T ApproxQ a b (Some f))))
+
+  Local Notation r2 := (@rd_v2 F).    Local Notation r3 := (@rd_v3 F).
+
+Definition gtab_c15 : list (string * (list F -> gval F)) := [
+  ("quat_between_vectors", grun2 r3 r3 (fun a b => gq (quat_between_vectors O T A a b)));
+  ("basis3_between_vectors", grun2 r3 r3 (fun a b => gm3 (basis3_between_vectors O T A a b)));
+  ("basis2_between_vectors", grun2 r2 r2 (fun a b => gm2 (basis2_between_vectors O T a b)));
+  ("quat_from_arc_none", grun2 r3 r3 (fun a b => gq (quat_from_arc O T A a b None)));
+  ("quat_from_arc_some", grun3 r3 r3 r3 (fun a b f => gq (quat_from_arc O T A a b (Some f))))
 ].
+End G.
+
+Definition tab_c15 (o : Orc) : list (string * (list Qc -> val)) := qtab (gtab_c15 OpsQ (TrigQ o) ApproxQ).
 
 Definition run_c15 : runner := fun f o args =>
   match dispatch (tab_c15 o) f with Some h => h args | None => VBad end.
